@@ -25,8 +25,8 @@ func init() {
 		ID:    "C15",
 		Title: "Message queues: FIFO, exactly once, no lost wake-up; priority by counter",
 		Explanation: "Decides, from the type-checked SSA of the generic bodies of queue.SimpleQueue and queue.PriorityQueue (every function of the package that touches their fields), shapes that hold or fail for every interleaving at once. " +
-			"SimpleQueue: (D1) items enter the list at one end and leave from the other (PushBack vs Front+Remove, or the mirror image), every removed element is the head element read in the same critical section and its value is what the function returns, every head value that is returned is removed on every path (exactly once), and every list operation runs with the queue mutex held - code that sits in an unexported helper of the package is checked in the helper's body once per exported function through which it is reached, with the locks held on that function's call chains (a helper called with the mutex held is as good as inline code; the helper's result must be passed on to the exported function's return), so extracting or merging helpers neither hides a site nor lowers the obligation count; " +
-			"(D2) the wake-up channel is not of the losing shape 'capacity 0 + non-blocking send + receive performed after the mutex was released' (a send falling between the waiter's unlock and its receive is dropped); every receive that takes a token off the wake-up channel (the blocking wait, a non-blocking drain, in the waiter or in a helper on its path) is followed, before the consumer can block on the channel again, by a fresh emptiness test made with the mutex held - unless it was made with the mutex held on the empty side of such a test in the same critical section (the token is then provably stale) - because a token taken after the mutex was released may belong to an item that has not been seen; and an exported function never reaches its blocking wait from the entry without such a test; a non-blocking receive on the wake-up channel in code that is not part of the consumer's wait (Pop, Add, their helpers - it can run while a consumer is about to block, and the one-slot channel coalesces several signals into one token) is allowed only under the mutex on the empty side of an emptiness test; " +
+			"SimpleQueue: (D1) items enter the list at one end and leave from the other (PushBack vs Front+Remove, or the mirror image), every removed element is the head element read in the same critical section and its value is what the function returns, every head value that is returned is removed on every path (exactly once), and every list operation runs with the queue mutex held - code that sits in an unexported helper of the package is checked in the helper's body once per exported function through which it is reached, with the locks held on that function's call chains (a helper called with the mutex held is as good as inline code; the helper's result must be passed on to the exported function's return), so extracting or merging helpers neither hides a site nor lowers the obligation count; a parameter of an unexported package function (method or plain function, generic or not) to which every call site passes the queue's list or wake-up channel stands for that field, so list operations, sends and receives written in such helpers are the queue's; a helper call that observes emptiness on every path (take-the-front-if-any) counts as an emptiness observation in its caller, and a result it stored into the caller's named results is 'no item' at a cancelled exit when the helper's boolean is false on every path reaching that exit and the helper returns the zero item whenever it returns false; " +
+			"(D2) the wake-up channel is not of the losing shape 'capacity 0 + non-blocking send + receive performed after the mutex was released' (a send falling between the waiter's unlock and its receive is dropped), and the blocking wait is never entered with the mutex held; every receive that takes a token off the wake-up channel (the blocking wait, a non-blocking drain, in the waiter or in a helper on its path) is followed, before the consumer can block on the channel again, by a fresh emptiness test made with the mutex held - unless it was made with the mutex held on the empty side of such a test in the same critical section (the token is then provably stale) - because a token taken after the mutex was released may belong to an item that has not been seen; and an exported function never reaches its blocking wait from the entry without such a test; a non-blocking receive on the wake-up channel in code that is not part of the consumer's wait (Pop, Add, their helpers - it can run while a consumer is about to block, and the one-slot channel coalesces several signals into one token) is allowed only under the mutex on the empty side of an emptiness test; " +
 			"(D3) after every wake-up the waiter re-observes emptiness (Len, or a nil-tested Front/Back) before any removal; " +
 			"(D4) every insertion is followed on every path by a wake-up send, or preceded by one inside the same uninterrupted critical section; " +
 			"(D5) the blocking wait also listens to ctx.Done(), a wait ended by cancellation cannot re-enter the wait without testing ctx.Err(), the exit taken on cancellation returns the zero item and false, and an item is removed and handed out only after the context was tested since the last blocking point (function entry or the wait; ctx.Err() feeding a branch or a non-blocking ctx.Done() case), the cancelled side of that test removing nothing - so a wait whose context is already cancelled returns 'no item' even when items are pending. " +
@@ -618,6 +618,8 @@ type c15Simple struct {
 	mustSend map[*ssa.Function]int // 0 unknown, 1 yes, 2 no
 	ungRem   map[*ssa.Function]int
 	blockUnt map[*ssa.Function]int
+	parField map[*ssa.Parameter]int
+	allTest  map[*ssa.Function]int
 }
 
 func (e *c15Env) runSimple(named *types.Named) {
@@ -651,13 +653,61 @@ func (e *c15Env) runSimple(named *types.Named) {
 }
 
 func (s *c15Simple) isList(v ssa.Value) bool {
-	n, i, _ := c15FieldRef(v)
-	return n != nil && n.Obj() == s.named.Obj() && c15HasInt(s.listIdx, i)
+	i, ok := s.fieldOf(v, 0)
+	return ok && c15HasInt(s.listIdx, i)
 }
 
 func (s *c15Simple) isChan(v ssa.Value) bool {
-	n, i, _ := c15FieldRef(v)
-	return n != nil && n.Obj() == s.named.Obj() && c15HasInt(s.chanIdx, i)
+	i, ok := s.fieldOf(v, 0)
+	return ok && c15HasInt(s.chanIdx, i)
+}
+
+// fieldOf resolves v to a field of the queue: the address of the field, a value loaded from
+// it, or a parameter of an unexported package function (method or not, generic or not) to
+// which every call site in the package passes that same field.
+func (s *c15Simple) fieldOf(v ssa.Value, depth int) (int, bool) {
+	if n, i, _ := c15FieldRef(v); n != nil {
+		return i, n.Obj() == s.named.Obj()
+	}
+	for i := 0; i < 3; i++ {
+		if ct, ok := v.(*ssa.ChangeType); ok {
+			v = ct.X
+		}
+	}
+	par, ok := v.(*ssa.Parameter)
+	if !ok || depth > 2 {
+		return -1, false
+	}
+	if s.parField == nil {
+		s.parField = map[*ssa.Parameter]int{}
+	}
+	if r, ok := s.parField[par]; ok {
+		return r, r >= 0
+	}
+	s.parField[par] = -1
+	fn := par.Parent()
+	if obj := fn.Object(); fn.Parent() != nil || (obj != nil && obj.Exported()) {
+		return -1, false
+	}
+	k := c15ParamIndex(fn, par)
+	res, n := -1, 0
+	for _, cs := range s.e.callSitesOf(fn) {
+		args := cs.(ssa.CallInstruction).Common().Args
+		if k < 0 || k >= len(args) {
+			return -1, false
+		}
+		i, ok := s.fieldOf(args[k], depth+1)
+		if !ok || (n > 0 && i != res) {
+			return -1, false
+		}
+		res = i
+		n++
+	}
+	if n == 0 {
+		return -1, false
+	}
+	s.parField[par] = res
+	return res, true
 }
 
 const c15ListPrefix = "(*container/list.List)."
@@ -1009,6 +1059,8 @@ func (s *c15Simple) ruleWakeup() {
 			c.fail("D2", construct, posOf(r.in), "the consumer waits on a channel of the queue that nothing ever sends to: an added item never wakes it")
 		case unknown:
 			c.undecided("D2", construct, posOf(r.in), "the capacity of the wake-up channel is not a constant make(chan) stored at construction: the lost-token shape cannot be decided")
+		case r.blocking && held:
+			c.fail("D2", construct, posOf(r.in), "the consumer blocks on the wake-up channel with the queue mutex held (the mutex is not released before the wait, or the waiting helper is called inside the critical section): Add needs the mutex to insert and to signal, so no item is ever added or handed over while the consumer waits")
 		case unbuffered && tryIn != nil && !held:
 			c.fail("D2", construct, posOf(r.in), "lost wake-up: the channel made in %s has capacity 0, %s signals it with a non-blocking send (select/default), and this receive starts after the queue mutex was released; an Add that runs between the consumer's unlock and this receive finds no receiver, drops its signal, and the consumer stays blocked although the queue is non-empty", c15Keys(makers), fnName(tryIn.fn))
 		default:
@@ -1026,6 +1078,10 @@ func (s *c15Simple) ruleWakeup() {
 // emptiness observations of fn: Len() feeding a branch, or Front()/Back() compared with nil
 // feeding a branch.
 func (s *c15Simple) emptinessTests(fn *ssa.Function) map[ssa.Instruction]bool {
+	return s.emptinessTestsD(fn, 0)
+}
+
+func (s *c15Simple) emptinessTestsD(fn *ssa.Function, depth int) map[ssa.Instruction]bool {
 	out := map[ssa.Instruction]bool{}
 	for _, op := range s.byFn[fn] {
 		v := op.in.Value()
@@ -1043,7 +1099,35 @@ func (s *c15Simple) emptinessTests(fn *ssa.Function) map[ssa.Instruction]bool {
 			}
 		}
 	}
+	if depth > 2 {
+		return out
+	}
+	// a call of a package helper that observes emptiness on every path before it returns
+	// (typically "take the front element if there is one") is such an observation
+	for _, b := range fn.Blocks {
+		for _, in := range b.Instrs {
+			if g := s.pkgCallee(in); g != nil && g != fn && s.alwaysTests(g, depth+1) {
+				out[in] = true
+			}
+		}
+	}
 	return out
+}
+
+func (s *c15Simple) alwaysTests(g *ssa.Function, depth int) bool {
+	if s.allTest == nil {
+		s.allTest = map[*ssa.Function]int{}
+	}
+	if v := s.allTest[g]; v != 0 {
+		return v == 1
+	}
+	s.allTest[g] = 2
+	tests := s.emptinessTestsD(g, depth)
+	res := len(g.Blocks) > 0 && len(tests) > 0 && c15Search(g.Blocks[0], 0, c15Returns(g), tests, nil) == nil
+	if res {
+		s.allTest[g] = 1
+	}
+	return res
 }
 
 // c15FeedsIf: v reaches the condition of an If through comparisons / negations (needNil: the
@@ -1464,7 +1548,7 @@ func (s *c15Simple) cancelAt(site ssa.Instruction, direct bool, doneEdges []edge
 		for i, v := range ret.Results {
 			leaves, _ := c15Leaves(v)
 			for _, lf := range leaves {
-				if !c15IsZeroConst(lf) {
+				if !c15IsZeroConst(lf) && !s.noItemOnArrival(lf, ret) {
 					at = ret
 					if isBoolType(v.Type()) {
 						msg = "the exit taken after cancellation can return true: a cancelled wait must return 'no item'"
@@ -1480,6 +1564,84 @@ func (s *c15Simple) cancelAt(site ssa.Instruction, direct bool, doneEdges []edge
 	} else {
 		c.ok("D5", cC, fn.Pos(), "the %d exit(s) taken after cancellation return the zero item and false", len(rets))
 	}
+}
+
+// c15FalseOnArrival: every path from the definition of the boolean v to the return ret takes
+// the false side of a test of v (so the value, as last stored, is false when ret is reached).
+func c15FalseOnArrival(v ssa.Value, ret *ssa.Return) bool {
+	def, ok := v.(ssa.Instruction)
+	if !ok || !isBoolType(v.Type()) {
+		return false
+	}
+	ve := edgesOfVerdict(v)
+	if len(ve.Reject) == 0 {
+		return false
+	}
+	cut := map[edge]bool{}
+	for _, e := range ve.Reject {
+		cut[e] = true
+	}
+	return def.Block() != ret.Block() && !reach(def.Block(), cut)[ret.Block()]
+}
+
+// noItemOnArrival: leaf value lf, as it arrives at the cancelled exit ret, is 'no item': a
+// boolean that is false on arrival, or the item result of a package helper whose boolean
+// result is false on arrival and which returns the zero item whenever it returns false.
+func (s *c15Simple) noItemOnArrival(lf ssa.Value, ret *ssa.Return) bool {
+	if isBoolType(lf.Type()) {
+		return c15FalseOnArrival(lf, ret)
+	}
+	ex, ok := lf.(*ssa.Extract)
+	if !ok {
+		return false
+	}
+	call, ok := ex.Tuple.(*ssa.Call)
+	if !ok {
+		return false
+	}
+	g := s.pkgCallee(call)
+	if g == nil {
+		return false
+	}
+	res := g.Signature.Results()
+	for bi := 0; bi < res.Len(); bi++ {
+		if bi == ex.Index || !isBoolType(res.At(bi).Type()) {
+			continue
+		}
+		sib := extractsOf(call, bi)
+		if len(sib) != 1 || !c15FalseOnArrival(sib[0], ret) {
+			continue
+		}
+		// the helper returns the zero item whenever its boolean may be false
+		good := true
+		for _, r := range returnsOf(g) {
+			rr := retResults(r)
+			if bi >= len(rr) || ex.Index >= len(rr) {
+				good = false
+				break
+			}
+			bl, bz := c15Leaves(rr[bi])
+			mayFalse := bz
+			for _, x := range bl {
+				if b, ok := constBool(x); !ok || !b {
+					mayFalse = true
+				}
+			}
+			if !mayFalse {
+				continue
+			}
+			il, _ := c15Leaves(rr[ex.Index])
+			for _, x := range il {
+				if !c15IsZeroConst(x) {
+					good = false
+				}
+			}
+		}
+		if good {
+			return true
+		}
+	}
+	return false
 }
 
 // cancelBeforeDelivery: D5 (d). In the function that loops around the wait, an item is handed
